@@ -44,6 +44,7 @@ def parseOutcome : String → Option Outcome
   | "ok" => some .ok | "fail" => some .fail | "failhold" => some .fail | "failmsg" => some .failmsg
   | "gtorun" => some .gtorun
   | "cancelrun" => some .cancelrun | "silent" => some .silent | "gto" => some .gto | "cancel" => some .cancel
+  | "precancel" => some .precancel
   | "badstart" => some .badstart | "stranger" => some .stranger | "readyerr" => some .readyerr
   | "comm" => some .comm | "subset" => some .subset | _ => none
 
@@ -58,14 +59,20 @@ def classified : Outcome → Bool
   | .silent | .comm | .subset => true
   | _ => false
 
+/-- `elected:end`; `selfA<k>` = this relayer is elected and k alive answers arrive during the election -/
 def parseSecond : String → Option Second
   | s => match s.splitOn ":" with
     | [e, f] => do
+      let (e, alive) ← match e.splitOn "A" with
+        | [e] => some (e, 0)
+        | [e, k] => do pure (e, ← k.toNat?)
+        | _ => none
       let e ← match e with | "self" => some Elected.self | "other" => some .other | "any" => some .any | _ => none
+      if alive > 0 && e != .self then none else
       let f ← match f with
         | "ok" => some End2.ok | "fail" => some .fail | "cancel" => some .cancel | "idle" => some .idle
         | "silent" => some .silent | _ => none
-      pure ⟨e, f⟩
+      pure ⟨e, f, alive⟩
     | _ => none
 
 /-- second attempts the harness can script: SubsetError waits for anybody, the other failures go through an election;
@@ -82,16 +89,25 @@ def parseSess (s : String) : Option Sess :=
   match first.splitOn ":" with
   | [sid, r, n, o] => do
     let (r, retryable) ← parseRole r
-    -- `<n>` or `<n>f<mask>`: bit 0 / bit 1 of the mask = Close() of the session's stream to relayer 1 / 2 fails
+    -- `<n>[f<mask>][w<mask>]`: bit 0 / bit 1 = the session's stream to relayer 1 / 2; f: its Close() fails, w: its writes fail
+    let (n, wmask) ← match n.splitOn "w" with
+      | [n] => some (n, 0)
+      | [n, m] => do pure (n, ← m.toNat?)
+      | _ => none
     let (n, mask) ← match n.splitOn "f" with
       | [n] => do pure (← n.toNat?, 0)
       | [n, m] => do pure (← n.toNat?, ← m.toNat?)
       | _ => none
-    if mask > 3 then none else
+    if mask > 3 || wmask > 3 then none else
     let opened : List Strm := match r with
-      | .coord => [⟨1, mask % 2 == 1⟩, ⟨2, mask / 2 == 1⟩]
-      | .part => [⟨1, mask % 2 == 1⟩]
+      | .coord => [⟨1, mask % 2 == 1, wmask % 2 == 1⟩, ⟨2, mask / 2 == 1, wmask / 2 == 1⟩]
+      | .part => [⟨1, mask % 2 == 1, wmask % 2 == 1⟩]
     let o ← parseOutcome o
+    -- session names from `c` on sort this relayer before relayer 2: no other relayer can claim the election there,
+    -- and only there do relayer 2's alive answers count
+    let lateNames := match sid.toList.head? with
+      | some ch => decide (ch.toNat ≥ 'c'.toNat)
+      | none => false
     if !(validFor r o && n ≥ 1) then none else
     match second with
     | none =>
@@ -99,6 +115,8 @@ def parseSess (s : String) : Option Sess :=
       if retryable && classified o then none else pure ⟨sid, r, n, o, retryable, none, opened⟩
     | some t => do
       let t ← parseSecond t
+      if lateNames && t.elected == .other then none else
+      if !lateNames && t.alive > 0 then none else
       if retryable && classified o && validSecond r o t then pure ⟨sid, r, n, o, true, some t, opened⟩ else none
   | _ => none
 
@@ -112,7 +130,7 @@ def plusList (xs : List Nat) : String := "+".intercalate (xs.map toString)
 
 def showReport (r : Report) : String :=
   "/".intercalate [showRet r.ret, toString r.sub, toString r.unsub, toString r.close, toString r.live,
-    toString r.streams, "0", toString r.stale, plusList r.runs, plusList r.stops, if r.pend then "1" else "0",
+    toString r.streams, toString r.unclosed, toString r.stale, plusList r.runs, plusList r.stops, if r.pend then "1" else "0",
     toString r.elive, toString r.estreams]
 
 /-- report and the count of streams the host still has open -/
@@ -132,7 +150,7 @@ def parseReport (s : String) : Option (Report × Nat) :=
     let pend ← if pend = "1" then some true else if pend = "0" then some false else none
     let elive ← elive.toNat?
     let estreams ← estreams.toNat?
-    pure (⟨ret, sub, unsub, close, live, streams, dead, runs, stops, pend, elive, estreams⟩, op)
+    pure (⟨ret, sub, unsub, close, live, streams, op, dead, runs, stops, pend, elive, estreams⟩, op)
   | _ => none
 
 def handle (op : String) (args : List String) (impl : String) : Option Verdict :=
